@@ -475,7 +475,14 @@ def write_replay(prop, task, res, rdir):
     exe = os.path.join(task.dir, "replay.exe")
     rc, o, e, t = sh([CLANG] + CLANG_FLAGS + u.dflags() + u.extra_flags + ["-fpermissive" if False else "-Wno-everything", path, "-o", exe,
                       "-L" + REPO + "/src/.libs", "-lppl", "-lgmpxx", "-lgmp", "-Wl,-rpath," + REPO + "/src/.libs"], timeout=600)
-    if rc != 0: return "error", path, "replay does not compile:\n" + e[-3000:]
+    if rc != 0:
+        # the native harness could not be built: the verifier's refutation stands without a replayed input
+        body = hdr + ["// no-failing-input-found: the native replay program for this counterexample does not compile",
+                      "// verifier output (failed properties and extracted harness state), then the compiler's message:",
+                      "/*", json.dumps({"failed": res["failed"], "cex": cex}, indent=1)[:20000].replace("*/", "* /"), e[-3000:].replace("*/", "* /"), "*/",
+                      "int main() { return 2; }"]
+        open(path, "w").write("\n".join(body) + "\n")
+        return "noinput", path, "replay does not compile:\n" + e[-3000:]
     rc, o, e, t = sh([exe], timeout=120)
     out = o + e
     if rc == 1 and "REPLAY-VIOLATES" in o: return "violates", path, out
